@@ -45,6 +45,8 @@ pub enum Op {
     Read(usize),
     /// remove_object(uuid) on replica r, uuid = "obj" (n = 0) or the element id "x" (n = 1)
     ObjRemove(usize, usize),
+    /// copy only the block files (.delta) of s's storage that r lacks (their packs are "still in flight")
+    CopyDeltas(usize, usize),
     /// saved = stage() on replica r (the export is kept by the harness; nothing changes in the replica)
     StageSave(usize),
     /// replay_stage(saved) on replica r (the export saved last on that replica)
@@ -71,6 +73,7 @@ impl Op {
             | Op::ObjDel(r)
             | Op::Read(r)
             | Op::ObjRemove(r, _)
+            | Op::CopyDeltas(r, _)
             | Op::StageSave(r)
             | Op::StageReplay(r) => *r,
         }
@@ -94,6 +97,7 @@ impl Op {
             Op::ObjDel(r) => format!("objdel({})", r),
             Op::Read(r) => format!("read({})", r),
             Op::ObjRemove(r, n) => format!("objremove({},{})", r, n),
+            Op::CopyDeltas(r, s) => format!("copydeltas({}<-{})", r, s),
             Op::StageSave(r) => format!("stagesave({})", r),
             Op::StageReplay(r) => format!("stagereplay({})", r),
         }
@@ -437,6 +441,19 @@ impl World {
                 let m = &self.reps[r].m;
                 let uuid = if *n == 0 { "obj" } else { "x" };
                 call(&label, || m.remove_object(uuid).map(|x| x.unwrap_or_default()).map_err(|e| e.to_string()))
+            }
+            Op::CopyDeltas(_, s) => {
+                if *s >= self.reps.len() || *s == r {
+                    return OpOut::NotEnabled("bad source".into());
+                }
+                let src = self.reps[*s].store.snapshot();
+                let mut n = 0;
+                for (k, v) in src {
+                    if k.ends_with(".delta") && self.reps[r].store.put_if_absent(&k, v) {
+                        n += 1;
+                    }
+                }
+                Ok(Ok(format!("copied {}", n)))
             }
             Op::StageSave(_) => {
                 let m = &self.reps[r].m;
